@@ -177,6 +177,56 @@ theorem dspec_stepSpec {i : Nat} {o r : Option Entry} {δ : Delta} (ho : EntOK i
             simp [h2]; exact hk
       · cases h
 
+theorem stepSpec_ok_iff (o : Option Entry) (δ : Delta) :
+    (∃ r, stepSpec o δ = .ok r) ↔
+      match o with
+      | some pe => δ.key ≠ pe.key ∧ 0 ≤ pe.power + δ.delta ∧ (δ.key ≠ 0 → pe.power + δ.delta ≠ 0)
+      | none => 0 < δ.delta ∧ δ.key ≠ 0 := by
+  cases o with
+  | none =>
+    simp only [stepSpec]
+    by_cases h1 : δ.delta ≤ 0
+    · simp only [h1, if_true]
+      constructor
+      · rintro ⟨r, hr⟩; cases hr
+      · rintro ⟨h, _⟩; omega
+    · by_cases h2 : δ.key = 0
+      · simp only [h1, if_false, h2, beq_self_eq_true, if_true]
+        constructor
+        · rintro ⟨r, hr⟩; cases hr
+        · rintro ⟨_, h⟩; exact absurd rfl h
+      · have h2' : (δ.key == 0) = false := by simpa using h2
+        simp only [h1, if_false, h2', Bool.false_eq_true]
+        exact ⟨fun _ => ⟨by omega, h2⟩, fun _ => ⟨_, rfl⟩⟩
+  | some pe =>
+    simp only [stepSpec]
+    by_cases h1 : δ.key = pe.key
+    · simp only [h1, beq_self_eq_true, if_true]
+      constructor
+      · rintro ⟨r, hr⟩; cases hr
+      · rintro ⟨h, _⟩; exact absurd rfl h
+    · have h1' : (δ.key == pe.key) = false := by simpa using h1
+      simp only [h1', Bool.false_eq_true, if_false]
+      by_cases h2 : pe.power + δ.delta = 0
+      · by_cases h3 : δ.key = 0
+        · simp only [h3, bne_self_eq_false, Bool.false_and, Bool.false_eq_true, if_false, h2,
+            beq_self_eq_true, if_true]
+          refine ⟨fun _ => ⟨by rw [← h3]; exact h1, by omega, fun h => absurd rfl h⟩, fun _ => ⟨_, rfl⟩⟩
+        · have h3' : (δ.key != 0) = true := by simpa using h3
+          simp only [h3', h2, beq_self_eq_true, Bool.and_self, if_true]
+          constructor
+          · rintro ⟨r, hr⟩; cases hr
+          · rintro ⟨_, _, h⟩; exact absurd rfl (h h3)
+      · have h2' : (pe.power + δ.delta == 0) = false := by simpa using h2
+        simp only [h2', Bool.and_false, Bool.false_eq_true, if_false]
+        by_cases h4 : pe.power + δ.delta > 0
+        · simp only [h4, if_true]
+          exact ⟨fun _ => ⟨h1, by omega, fun _ => h2⟩, fun _ => ⟨_, rfl⟩⟩
+        · simp only [h4, if_false]
+          constructor
+          · rintro ⟨r, hr⟩; cases hr
+          · rintro ⟨_, h, _⟩; omega
+
 /-! ## canonical order -/
 
 theorem entryLe_trans (a b c : Entry) (h1 : entryLe a b = true) (h2 : entryLe b c = true) :
